@@ -94,6 +94,9 @@ class SqliteDatabase(CachedDatabase):
         timeout: int = 20,
     ):
         super().__init__(context)
+        # Serialize cached reads with the updates that invalidate them: a read suspended
+        # between its SELECT and the cache store must not overlap an UPDATE of the same row
+        self._cache_lock: asyncio.Lock = asyncio.Lock()
         # Open connection to database
         if connection != IN_MEMORY_SQLITE_CONNECTION:
             connection = (
@@ -337,7 +340,7 @@ class SqliteDatabase(CachedDatabase):
         postprocess=postprocess_deepcopy_mutables,
     )
     async def get_deployment(self, deployment_id: int) -> MutableMapping[str, Any]:
-        async with self.connection as db:
+        async with self._cache_lock, self.connection as db:
             async with db.execute(
                 "SELECT * FROM deployment WHERE id = :id", {"id": deployment_id}
             ) as cursor:
@@ -368,7 +371,7 @@ class SqliteDatabase(CachedDatabase):
         postprocess=postprocess_deepcopy_mutables,
     )
     async def get_filter(self, filter_id: int) -> MutableMapping[str, Any]:
-        async with self.connection as db:
+        async with self._cache_lock, self.connection as db:
             async with db.execute(
                 "SELECT * FROM filter WHERE id = :id", {"id": filter_id}
             ) as cursor:
@@ -419,7 +422,7 @@ class SqliteDatabase(CachedDatabase):
         postprocess=postprocess_deepcopy_mutables,
     )
     async def get_port(self, port_id: int) -> MutableMapping[str, Any]:
-        async with self.connection as db:
+        async with self._cache_lock, self.connection as db:
             async with db.execute(
                 "SELECT * FROM port WHERE id = :id", {"id": port_id}
             ) as cursor:
@@ -476,7 +479,7 @@ class SqliteDatabase(CachedDatabase):
         postprocess=postprocess_deepcopy_mutables,
     )
     async def get_step(self, step_id: int) -> MutableMapping[str, Any]:
-        async with self.connection as db:
+        async with self._cache_lock, self.connection as db:
             async with db.execute(
                 "SELECT * FROM step WHERE id = :id", {"id": step_id}
             ) as cursor:
@@ -487,7 +490,7 @@ class SqliteDatabase(CachedDatabase):
         postprocess=postprocess_deepcopy_mutables,
     )
     async def get_target(self, target_id: int) -> MutableMapping[str, Any]:
-        async with self.connection as db:
+        async with self._cache_lock, self.connection as db:
             async with db.execute(
                 "SELECT * FROM target WHERE id = :id", {"id": target_id}
             ) as cursor:
@@ -574,7 +577,7 @@ class SqliteDatabase(CachedDatabase):
     async def update_deployment(
         self, deployment_id: int, updates: MutableMapping[str, Any]
     ) -> int:
-        async with self.connection as db:
+        async with self._cache_lock, self.connection as db:
             async with db.execute(
                 "UPDATE deployment SET {} WHERE id = :id".format(  # nosec
                     ", ".join([f"{k} = :{k}" for k in updates])
@@ -599,7 +602,7 @@ class SqliteDatabase(CachedDatabase):
     async def update_filter(
         self, filter_id: int, updates: MutableMapping[str, Any]
     ) -> int:
-        async with self.connection as db:
+        async with self._cache_lock, self.connection as db:
             async with db.execute(
                 "UPDATE filter SET {} WHERE id = :id".format(  # nosec
                     ", ".join([f"{k} = :{k}" for k in updates])
@@ -610,7 +613,7 @@ class SqliteDatabase(CachedDatabase):
                 return filter_id
 
     async def update_port(self, port_id: int, updates: MutableMapping[str, Any]) -> int:
-        async with self.connection as db:
+        async with self._cache_lock, self.connection as db:
             async with db.execute(
                 "UPDATE port SET {} WHERE id = :id".format(  # nosec
                     ", ".join([f"{k} = :{k}" for k in updates])
@@ -621,7 +624,7 @@ class SqliteDatabase(CachedDatabase):
                 return port_id
 
     async def update_step(self, step_id: int, updates: MutableMapping[str, Any]) -> int:
-        async with self.connection as db:
+        async with self._cache_lock, self.connection as db:
             async with db.execute(
                 "UPDATE step SET {} WHERE id = :id".format(  # nosec
                     ", ".join([f"{k} = :{k}" for k in updates])
@@ -634,7 +637,7 @@ class SqliteDatabase(CachedDatabase):
     async def update_target(
         self, target_id: int, updates: MutableMapping[str, Any]
     ) -> int:
-        async with self.connection as db:
+        async with self._cache_lock, self.connection as db:
             async with db.execute(
                 "UPDATE target SET {} WHERE id = :id".format(  # nosec
                     ", ".join([f"{k} = :{k}" for k in updates])
